@@ -150,7 +150,7 @@ def sym2_char(tr1, tr2):
 
 class Handle:
     __slots__ = ("id", "real", "gens", "order", "n", "kind", "simple", "dtype", "parent", "how",
-                 "relations", "family")
+                 "relations", "family", "abs_err")
 
     def __init__(self, hid, real, simple, kind="plain", parent=None, how="new", family=None):
         self.id = hid
@@ -165,6 +165,13 @@ class Handle:
         self.how = how
         self.relations = []
         self.family = family or hid
+        self.abs_err = 0.0      # bound on the absolute error its generators inherited from derivations
+
+    def maxnorm(self):
+        return max([1.0] + [ninf(M) for M in self.gens.values()])
+
+    def tol(self, letters, bound, kappa):
+        return (1e-8 * (1 + kappa) * (2 + len(letters)) + (1 + len(letters)) * self.abs_err) * bound
 
     def kappa(self):
         k = 1.0
@@ -330,7 +337,8 @@ class Engine:
 
     def _gen_derive(self, rng, world):
         cfg = world.cfg
-        h = self._pick(rng, world, lambda x: x.gens and x.how != "symmetric_square" and x.kappa() <= 1e6)
+        h = self._pick(rng, world, lambda x: x.gens and x.how != "symmetric_square" and x.kappa() <= 1e6
+                       and x.abs_err <= 1e-5)
         if h is None:
             return None
         if h.kind != "plain":
@@ -567,7 +575,7 @@ class Engine:
             return "skipped:sym"
         if not h.gens:
             return "skipped:no-generators"
-        if h.kappa() > 1e6:
+        if h.kappa() > 1e6 or h.abs_err > 1e-5:
             return "skipped:ill-conditioned"
         a = h.real
         nh = Handle(op["new"], None, h.simple, h.kind, h.id, how, h.family)
@@ -669,6 +677,29 @@ class Engine:
             # checked up to change of basis: the handle keeps its parent's model and is
             # compared by dimension and character
             nh.gens = {g: M.copy() for g, M in h.gens.items()}
+        # absolute error the child's generators inherit from how the real code computed them
+        mx, kp = h.maxnorm(), h.kappa()
+        if how in ("copy", "astype", "wrap_projective", "wrap_hyperbolic"):
+            nh.abs_err = h.abs_err
+        elif how == "subgroup":
+            e = 0.0
+            for w in op["words"]:
+                for ww in (w, [inv_name(x) for x in reversed(w)]):
+                    V, b = h.value(ww)
+                    ev = h.tol(ww, b, kp)
+                    Vi, bi = h.value([inv_name(x) for x in reversed(ww)])
+                    e = max(e, ev * (1 + ninf(Vi) ** 2))
+            nh.abs_err = e
+        elif how == "tensor":
+            o = world.handles[op["other"]]
+            nh.abs_err = (h.abs_err + 1e-13 * kp * mx) * o.maxnorm() * 4 + \
+                         (o.abs_err + 1e-13 * o.kappa() * o.maxnorm()) * mx * 4
+        else:
+            c = 1.0
+            if how == "conjugate":
+                C = dec(op["mat"])
+                c = ninf(C) * ninf(np.linalg.inv(C))
+            nh.abs_err = (h.abs_err + 1e-13 * kp * mx) * (1 + mx) ** 3 * c
         nh.order = list(h.order) if how != "subgroup" else SIMPLE[:len(op["words"])]
         # homomorphic images of the same group keep the parent's relations (they still hold);
         # tensor product, symmetric square and subgroup start without relations
@@ -784,7 +815,7 @@ class Engine:
                 vals[tuple(w)] = got
                 continue
             want, bound = h.value(w)
-            tol = 1e-10 * (1 + kappa) * (2 + len(w)) * bound
+            tol = h.tol(w, bound, kappa)
             if got.shape != want.shape:
                 return ("R.eval", "image of %r has shape %r, expected %r" % (w, got.shape, want.shape))
             if not np.all(np.abs(got - want) <= tol):
@@ -814,7 +845,7 @@ class Engine:
             except Exception as e:
                 return ("R.eval.raised", "evaluating a subword of %r raised %r" % (w2, e))
             _, bound = h.value(w2)
-            tol = 1e-10 * (1 + kappa) * (2 + len(w2)) * bound * 10
+            tol = h.tol(w2, bound, kappa) * 10
             if not np.all(np.abs(u @ v - vals[tuple(w2)]) <= tol):
                 return ("R.concat", "rep[uv] != rep[u] rep[v] for u=%r v=%r" % (w2[:cut], w2[cut:]))
             if not np.all(np.abs(r - vals[tuple(w2)]) <= tol):
@@ -832,7 +863,7 @@ class Engine:
                 return ("R.derived.symmetric_square", "image of %r has shape %r, expected (%d, %d)" % (w, got.shape, d, d))
             M, bound = h.value(w)
             want = sym2_char(np.trace(M), np.trace(M @ M))
-            tol = 1e-9 * (1 + h.kappa()) * (1 + bound * bound) * d
+            tol = (1e-8 * (1 + h.kappa()) + 10 * h.abs_err) * (1 + bound * bound) * d * (2 + len(w))
             if abs(np.trace(got) - want) > tol:
                 return ("R.derived.symmetric_square", "trace of the image of %r is %r, but (tr(g)^2 + tr(g^2))/2 = %r" % (
                     "".join(w), complex(np.round(np.trace(got), 6)), complex(np.round(want, 6))))
@@ -856,7 +887,7 @@ class Engine:
                 return ("R.fox.raised", "differential(%r) raised %r" % ("".join(w), e))
             M, bound = h.value(w)
             want = np.eye(n) - M
-            tol = 1e-10 * (1 + kappa) * (2 + len(w)) * 4 * bound * max(1.0, bound)
+            tol = h.tol(w, bound, kappa) * 4 * max(1.0, bound)
             if D.shape != (n, n * k) or not np.all(np.abs(D @ cob - want) <= tol):
                 return ("R.fox", "fundamental formula fails for w=%r: sum_g D_g(w)(rho(g)-I) != rho(w)-I "
                         "(max deviation %.3g)" % ("".join(w), float(np.max(np.abs(D @ cob - want))) if D.shape == (n, n * k) else -1))
@@ -883,7 +914,7 @@ class Engine:
             if h.relations and C.shape != (n * len(h.relations), n * k):
                 return ("R.cocycle", "cocycle matrix has shape %r for relations %r" % (C.shape, h.relations))
             if C.ndim == 2 and C.shape[0] > 0 and C.shape[1] == n * k and \
-                    not np.all(np.abs(C @ cob) <= 1e-10 * (1 + kappa) * 40 * bound * max(1.0, bound) + 1e-9):
+                    not np.all(np.abs(C @ cob) <= h.tol([0] * 10, bound, kappa) * 4 * max(1.0, bound) + 1e-9):
                 return ("R.cocycle", "the cocycle matrix (relations given: %r; relations the object carries: %r) "
                         "does not annihilate the coboundary matrix" % (h.relations, _safe_rel(h.real)))
             world.stats["probe.cocycle_checked"] += 1
